@@ -140,6 +140,10 @@ func (o Op) coq() string {
 		return "OLoadRegions"
 	case "loadonce":
 		return "OLoadOnce"
+	case "loadoncebad":
+		return "OLoadOnceCorrupt " + coqfmt.ZU(o.ID)
+	case "loadoncepair":
+		return "OLoadOnce; OLoadOnce" // two overlapping callers; sequentially equivalent on correct code
 	case "loadcache":
 		return "OLoadIntoCache"
 	}
@@ -362,6 +366,111 @@ func (w *world) exec(o *Op) string {
 			return "BErr"
 		}
 		return "BUnit"
+	case "loadoncebad":
+		// the stored value of region o.ID is made unreadable for the duration of one LoadRegionsOnce
+		var store kv.Base = w.base.Base
+		if w.useRS {
+			store = w.rs.LeveldbKV
+		}
+		key := fmt.Sprintf("raft/r/%020d", o.ID)
+		old, err := store.Load(key)
+		if err != nil {
+			panic(err)
+		}
+		if old != "" {
+			if err := store.Save(key, "\xff\xff\xff\xff not a region"); err != nil {
+				panic(err)
+			}
+		}
+		var xs []string
+		called := false
+		was := w.loadedOnce
+		lerr := w.st.LoadRegionsOnce(func(r *core.RegionInfo) []*core.RegionInfo {
+			called = true
+			xs = append(xs, coqItem(r.GetMeta()))
+			return nil
+		})
+		if old != "" {
+			if err := store.Save(key, old); err != nil {
+				panic(err)
+			}
+		}
+		if w.useRS && was && !called && lerr == nil {
+			return "BSkipped"
+		}
+		if w.useRS && lerr == nil {
+			w.loadedOnce = true
+		}
+		return "BRegions " + status(lerr) + " " + coqfmt.List(xs)
+	case "loadoncepair":
+		// two overlapping callers of LoadRegionsOnce: A is parked inside its load (its callback blocks after the first
+		// region); B is started meanwhile. The real code makes B wait on Storage.mu until A has finished.
+		parked, release := make(chan struct{}), make(chan struct{})
+		var xsA, xsB []string
+		nA := 0
+		wasA := w.loadedOnce
+		doneA, doneB := make(chan error, 1), make(chan error, 1)
+		go func() {
+			doneA <- w.st.LoadRegionsOnce(func(r *core.RegionInfo) []*core.RegionInfo {
+				xsA = append(xsA, coqItem(r.GetMeta()))
+				nA++
+				if nA == 1 {
+					close(parked)
+					<-release
+				}
+				return nil
+			})
+		}()
+		obsOf := func(was bool, n int, err error, xs []string) string {
+			if w.useRS && was && n == 0 && err == nil {
+				return "BSkipped"
+			}
+			return "BRegions " + status(err) + " " + coqfmt.List(xs)
+		}
+		select {
+		case errA := <-doneA: // nothing to park on (no regions, or already loaded): plain sequential calls
+			if w.useRS && errA == nil {
+				w.loadedOnce = true
+			}
+			a := obsOf(wasA, nA, errA, xsA)
+			wasB := w.loadedOnce
+			nB := 0
+			errB := w.st.LoadRegionsOnce(func(r *core.RegionInfo) []*core.RegionInfo {
+				nB++
+				xsB = append(xsB, coqItem(r.GetMeta()))
+				return nil
+			})
+			return a + "; " + obsOf(wasB, nB, errB, xsB)
+		case <-parked:
+		}
+		nB := 0
+		go func() {
+			doneB <- w.st.LoadRegionsOnce(func(r *core.RegionInfo) []*core.RegionInfo {
+				nB++
+				xsB = append(xsB, coqItem(r.GetMeta()))
+				return nil
+			})
+		}()
+		early := false
+		var errB error
+		select {
+		case errB = <-doneB:
+			early = true // B came back while A had delivered a single region
+		case <-time.After(150 * time.Millisecond): // B waits for A: the correct outcome
+		}
+		close(release)
+		errA := <-doneA
+		if !early {
+			errB = <-doneB
+		}
+		if w.useRS && errA == nil {
+			w.loadedOnce = true
+		}
+		a := obsOf(wasA, nA, errA, xsA)
+		if early && nB == 0 && errB == nil {
+			return a + "; BEarly"
+		}
+		return a + "; " + obsOf(true, nB, errB, xsB)
 	case "tick":
 		// the real timed flush: dirtyFlushTick = 1 s, 3 s after the last save
 		time.Sleep(4400 * time.Millisecond)
@@ -561,6 +670,16 @@ func genStores(r *rng.R, k int) Case {
 		c.Backend = "etcd"
 	}
 	n := counts[k%len(counts)]
+	// every second case weights every store: more than 50 (and more than 100) weighted stores inside one page of 100
+	weightAll := k%2 == 1
+	if weightAll {
+		n = []int{51, 60, 100, 130, 99, 101, 250}[(k/2)%7]
+		if (k/2)%2 == 1 {
+			c.Backend = "etcd"
+		} else {
+			c.Backend = "mem"
+		}
+	}
 	ids := genIDs(r, n)
 	faulty := r.Pct(40)
 	for _, id := range ids {
@@ -574,8 +693,8 @@ func genStores(r *rng.R, k int) Case {
 		if faulty && r.Pct(6) {
 			c.Ops = append(c.Ops, Op{K: "saveweightf", ID: id, LW: int64(r.Intn(5000)), RW: int64(r.Intn(5000)), Stg: r.Intn(2), Ap: r.Bool()})
 		}
-		if r.Pct(30) {
-			c.Ops = append(c.Ops, Op{K: "saveweight", ID: id, LW: int64(r.Intn(5000)), RW: int64(r.Intn(5000))})
+		if weightAll || r.Pct(30) {
+			c.Ops = append(c.Ops, Op{K: "saveweight", ID: id, LW: int64(1 + r.Intn(5000)), RW: int64(1 + r.Intn(5000))})
 		}
 	}
 	c.Ops = append(c.Ops, Op{K: "loadstores"})
@@ -703,7 +822,18 @@ func genRegions(r *rng.R, k int) Case {
 	}
 	c.Ops = append(c.Ops, Op{K: []string{"loadregions", "loadonce", "loadregions"}[r.Intn(3)]})
 	if rsMode {
-		c.Ops = append(c.Ops, Op{K: "loadonce"})
+		switch r.Intn(4) {
+		case 0:
+			c.Ops = append(c.Ops, Op{K: "loadonce"})
+		case 1:
+			if len(saved) > 0 {
+				c.Ops = append(c.Ops, Op{K: "reopen"}, Op{K: "loadoncebad", ID: saved[r.Intn(len(saved))]}, Op{K: "loadonce"}, Op{K: "loadonce"})
+			}
+		case 2:
+			c.Ops = append(c.Ops, Op{K: "reopen"}, Op{K: "loadoncepair"}, Op{K: "loadonce"})
+		default:
+			c.Ops = append(c.Ops, Op{K: "loadonce"}, Op{K: "loadoncepair"})
+		}
 	}
 	// delete some, overwrite some, then prune into a cache and load again
 	for _, id := range saved {
@@ -777,8 +907,18 @@ func fixedCases() []Case {
 	faults := Case{Backend: "etcd", Ops: []Op{{K: "savestore", ID: 1, P: 1}, {K: "savestoref", ID: 1, P: 2, Ap: true}, {K: "savestoref", ID: 2, P: 3, Ap: false},
 		{K: "saveweightf", ID: 1, LW: 2000, RW: 3000, Stg: 1, Ap: false}, {K: "loadstores"}, {K: "delstoref", ID: 1, Ap: true}, {K: "loadstores"},
 		{K: "saveregion", ID: 5, V: v1}, {K: "saveregionf", ID: 5, V: v1b, Ap: true}, {K: "delregionf", ID: 5, Ap: false}, {K: "loadregions"}}}
+	// LoadRegionsOnce: a first load that fails half-way must not set the once-flag; overlapping callers
+	six := func() []Op {
+		var ops []Op
+		for i := 1; i <= 6; i++ {
+			ops = append(ops, Op{K: "saveregion", ID: uint64(i * 7), V: &RV{Start: uint64(i) * 10, End: uint64(i+1) * 10, ConfVer: 1, Version: 1}})
+		}
+		return ops
+	}
+	onceRetry := Case{Backend: "mem", Ops: append(append([]Op{{K: "switch", P: 1}}, six()...), Op{K: "flush"}, Op{K: "loadoncebad", ID: 28}, Op{K: "loadonce"}, Op{K: "loadonce"})}
+	oncePair := Case{Backend: "mem", Ops: append(append([]Op{{K: "switch", P: 1}}, six()...), Op{K: "flush"}, Op{K: "loadoncepair"}, Op{K: "loadonce"})}
 	return []Case{
-		wrap, delBoth, pruneBoth, tick, cif(true), cif(false), faults, raceCase(true), raceCase(false), raceCase(true), raceCase(false),
+		wrap, delBoth, pruneBoth, onceRetry, oncePair, tick, cif(true), cif(false), faults, raceCase(true), raceCase(false), raceCase(true), raceCase(false),
 		// S9 on the stores namespace and on the regions namespace
 		{Backend: "mem", Ops: []Op{{K: "savestore", ID: 1, P: 1}, {K: "savestore", ID: top, P: 2}, {K: "loadstores"}}},
 		{Backend: "mem", Ops: []Op{{K: "saveregion", ID: 1, V: one}, {K: "saveregion", ID: top, V: two}, {K: "loadregions"}}},
@@ -995,6 +1135,11 @@ func checkGo(R *res.Result, c Case) {
 			}
 			if wantStores[top] && strings.HasPrefix(ob, "BStores RDone") && !strings.Contains(ob, "("+coqfmt.ZU(top)+",") {
 				R.Violate("C17:load:max-id-never-loaded", fmt.Sprintf("a store with id 2^64-1 was saved and not deleted; LoadStores returned %d stores without it", strings.Count(ob, "(")), slim(c))
+			}
+		case "loadoncepair":
+			if strings.Contains(ob, "BEarly") {
+				R.Violate("C17:load-once:returned-before-first-load-finished",
+					"two overlapping LoadRegionsOnce callers: the second returned nil without delivering anything while the first had delivered a single region", slim(c))
 			}
 		case "loadregions", "loadonce", "loadcache":
 			if strings.Contains(ob, " RDiverged ") {
